@@ -27,6 +27,7 @@ type GenOpts struct {
 	MaxEntries    int // entries per group: 1..MaxEntries
 	MaxDepth      int // optional groups deeper than this are not populated
 	ForceTags     map[int]bool
+	EmptyOneIn    int // a non-enumerated group is written with zero entries with probability 1/EmptyOneIn (0 = never)
 }
 
 // ValueFor returns a value conforming to the declared FIX type (or a declared enum value).
@@ -159,6 +160,9 @@ func (s *Spec) GenMembers(ch Chooser, members []*Member, o GenOpts, depth int, e
 					continue
 				}
 				n = allowed[ch.Intn(len(allowed))]
+			}
+			if o.EmptyOneIn > 0 && len(m.Enums) == 0 && ch.Intn(o.EmptyOneIn) == 0 {
+				n = 0
 			}
 			it := &Item{Tag: m.Tag, IsGroup: true, Def: m, Value: strconv.Itoa(n)}
 			for e := 0; e < n; e++ {
